@@ -1,11 +1,11 @@
 """C06 - modular tokenization is a faithful, decodable encoding of the maze."""
 ID = "C06"
 LEVEL = "exploration"
-LEVEL_TEXT = "Bounded, with the statement's own quantifier: an independent decoder configured only from the tokenizer's parameters recovers regions, edge sets with marks, origin, target and step sequences, exhaustively per region over all 216 adjacency-list and 1008 path element configurations (a stratified slice in the quick tier) plus a pairwise-covering set of full configurations, on mazes of all three kinds."
+LEVEL_TEXT = "PROVED (unbounded, z3): the two leaf functions that give direction tokens their meaning - get_cardinal_direction (rows grow southwards, columns eastwards) and get_relative_direction (STAY/BACKWARD/FORWARD and LEFT/RIGHT as rotations on the drawn maze, ValueError exactly for non-neighbouring or indeterminate inputs). Bounded, with the statement's own quantifier: an independent decoder configured only from the tokenizer's parameters recovers regions, edge sets with marks, origin, target and step sequences, exhaustively per region over all 216 adjacency-list and 1008 path element configurations (a stratified slice in the quick tier) plus a pairwise-covering set of full configurations, on mazes of all three kinds."
 LEVEL_NOTE = "Trusted: nothing beyond the harness's own decoder; the dynamic composition of tokenizer elements is outside the verified subset."
-TECHNIQUE = "bounded stand-in of the contract-based verifier: run-time checking of the real code against an independent executable statement over an enumerated scope (no function of this property is in the verified subset yet)"
-CONTRACT_MODULES = []
-PROVE = []
+TECHNIQUE = "contracts on the leaf functions discharged by z3 (pyvc) + bounded stand-in of the contract-based verifier: run-time checking of the real code against an independent executable statement over an enumerated scope (the proved leaf functions are listed in evidence; the property as a whole is decided by the bounded stand-in)"
+CONTRACT_MODULES = ['contracts.token_utils']
+PROVE = [('maze_dataset/token_utils.py', 'get_cardinal_direction'), ('maze_dataset/token_utils.py', 'get_relative_direction')]
 ASSUMPTIONS = []
 EXPLANATION = "see DESIGN.md C06"
 
